@@ -1,67 +1,188 @@
 ------------------------------- MODULE Pixman -------------------------------
 (***************************************************************************)
-(* Root module: the pieces composed into one behaviour.                    *)
+(* Root module: the pieces composed into one behaviour of the public API.  *)
 (*                                                                         *)
-(* A region is built by region operations (Region.tla), attached to an     *)
-(* image as its clip (the image keeps a COPY: later operations on the      *)
-(* region variable do not move the clip), optionally enabled for use as a  *)
-(* source clip, and consumed by pixman_image_composite32, whose effect is  *)
-(* defined pixel by pixel from the exact compositing rule (Opacity.tla's   *)
-(* PD, the rule of property C01's exact class):                            *)
+(* State: a pool of region variables (Region.tla) and a pool of images.    *)
+(* A region is built by region operations, attached to an image as its     *)
+(* clip (the image keeps a COPY: later operations on the region variable   *)
+(* do not move the clip), optionally enabled for use as a source / mask    *)
+(* clip, and consumed by the drawing calls.  An image is a bits image of   *)
+(* one of three formats or a solid fill; it carries a repeat mode, an      *)
+(* integer translation (the transforms under which NEAREST sampling is     *)
+(* exact), a component-alpha flag and a reference count.                   *)
+(*                                                                         *)
+(* pixman_image_composite32 is defined pixel by pixel from the exact       *)
+(* compositing rule (Opacity.tla's PD, the rule of C01's exact class):     *)
 (*                                                                         *)
 (*    R   = request rectangle /\ destination bounds /\ destination clip    *)
-(*          /\ source clip (when enabled, translated to destination space) *)
-(*    d'[p] = PD(op, s[p + (src - dest)], d[p])   for p in R               *)
+(*          /\ source clip /\ mask clip (each when enabled, translated to  *)
+(*          destination space -- by the request offsets only, never by the *)
+(*          image's transform)                                             *)
+(*    d'[p] = PD(op, (s IN m)[p], d[p])           for p in R               *)
 (*    d'[p] = d[p]                                 otherwise               *)
 (*                                                                         *)
-(* with source samples outside a non-repeating source being transparent.   *)
-(* So a request must not only stay inside R (C03) but also reach every     *)
-(* pixel of R with the operator's value (C01), whatever history built the  *)
-(* clip (C05-C07) -- one check spans the three modules.                    *)
+(* where s and m are sampled at p + (offset) + (translation), folded by    *)
+(* the repeat mode, transparent outside a non-repeating image, and read    *)
+(* through the format (x8r8g8b8: alpha 1; a8: colour 0).  So one request   *)
+(* must stay inside R (C03), reach every pixel of R with the operator's    *)
+(* value (C01), sample where the statement says (C08, integer case), treat *)
+(* every presentation of the same content alike (C09), read and write the  *)
+(* format's defined bits (C10), whatever history built the clip (C05-C07)  *)
+(* or set the properties (C14) -- one check spans the modules.             *)
+(* pixman_image_fill_boxes is defined independently (box after box) and    *)
+(* model checking shows it equals compositing a solid image over each box  *)
+(* and, for idempotent operators, filling the union once (C19).  Reference *)
+(* counts: an image exists while its count is positive (C20).              *)
 (*                                                                         *)
-(* Scope: a8r8g8b8 images, no mask, no transform, REPEAT_NONE, operators   *)
-(* CLEAR..ADD (the exact class).  The other modules (Image, Composite,     *)
-(* Dispatch, Alloc, ...) are composed pairwise where a property needs it;  *)
-(* see DESIGN.md 12.1.                                                     *)
+(* Scope: a8r8g8b8 / x8r8g8b8 / a8 bits images and solid fills, unified    *)
+(* and component-alpha masks, integer translations, the four repeat modes, *)
+(* operators CLEAR..ADD (the exact class).  The other modules (Image,      *)
+(* Composite, Dispatch, Alloc, ...) are composed pairwise where a property *)
+(* needs it; see DESIGN.md 12.1.                                           *)
 (***************************************************************************)
 EXTENDS Region, Opacity
 
-VARIABLES img        \* image id -> [w, h, px (row-major sequence of <<a,r,g,b>>),
-                     \*              clip ([on |-> BOOLEAN, r |-> rectangle list]), srcclip (BOOLEAN)]
+VARIABLES img        \* image id -> image record (see Bits / Solid below)
 
 NoClip == [on |-> FALSE, r |-> <<>>]
 ClipOf(L) == [on |-> TRUE, r |-> L]
 
 Transparent == <<0, 0, 0, 0>>
 
-PixelAt(im, x, y) ==
-    IF 0 <= x /\ x < im.w /\ 0 <= y /\ y < im.h THEN im.px[y * im.w + x + 1] ELSE Transparent
+Formats == {"a8r8g8b8", "x8r8g8b8", "a8"}
+RepNone == 0  RepNormal == 1  RepPad == 2  RepReflect == 3
 
-(* the exact rule on a pixel: alpha channel first, each colour channel with the source alpha *)
+(* px: row-major sequence of raw <<a, r, g, b>> tuples as stored (for a8: <<a, 0, 0, 0>>; for x8r8g8b8 the first *)
+(* component is the undefined byte).  clip: the image's clip region; srcclip: the clip also applies when the    *)
+(* image is a source or mask (pixman_image_set_source_clipping + has_client_clip).                              *)
+Bits(fmt, w, h, px) ==
+    [kind |-> "bits", fmt |-> fmt, w |-> w, h |-> h, px |-> px, clip |-> NoClip, srcclip |-> FALSE,
+     rep |-> RepNone, tx |-> 0, ty |-> 0, ca |-> FALSE, refs |-> 1]
+(* a solid fill: col = the four 16-bit channels <<a, r, g, b>> of pixman_color_t *)
+Solid(col) ==
+    [kind |-> "solid", fmt |-> "a8r8g8b8", w |-> 1, h |-> 1, px |-> <<<<col[1] \div 256, col[2] \div 256, col[3] \div 256, col[4] \div 256>>>>,
+     clip |-> NoClip, srcclip |-> FALSE, rep |-> RepNormal, tx |-> 0, ty |-> 0, ca |-> FALSE, refs |-> 1]
+NoImage == [kind |-> "none"]
+
+(* what a stored tuple means in its format *)
+View(fmt, p) ==
+    CASE fmt = "a8r8g8b8" -> p
+      [] fmt = "x8r8g8b8" -> <<255, p[2], p[3], p[4]>>
+      [] fmt = "a8"       -> <<p[1], 0, 0, 0>>
+(* the bits a store defines: two stored tuples are the same picture iff they agree on these *)
+Defined(fmt, p) ==
+    CASE fmt = "a8r8g8b8" -> p
+      [] fmt = "x8r8g8b8" -> <<0, p[2], p[3], p[4]>>
+      [] fmt = "a8"       -> <<p[1], 0, 0, 0>>
+
+(* coordinate folding of the repeat modes (TLA+ % is the non-negative remainder) *)
+Fold(c, n, rep) ==
+    CASE rep = RepNormal  -> c % n
+      [] rep = RepPad     -> IF c < 0 THEN 0 ELSE IF c >= n THEN n - 1 ELSE c
+      [] rep = RepReflect -> LET m == c % (2 * n) IN IF m < n THEN m ELSE 2 * n - 1 - m
+      [] OTHER            -> c
+
+(* the premultiplied <<a, r, g, b>> an image presents at integer position (x, y) of its own coordinate space, *)
+(* before its transform: translation, then repeat, then format                                               *)
+PixelAt(im, x, y) ==
+    IF im.kind = "solid" THEN im.px[1]
+    ELSE LET X == x + im.tx   Y == y + im.ty IN
+         IF im.rep = RepNone /\ ~(0 <= X /\ X < im.w /\ 0 <= Y /\ Y < im.h) THEN Transparent
+         ELSE View(im.fmt, im.px[Fold(Y, im.h, im.rep) * im.w + Fold(X, im.w, im.rep) + 1])
+
+(* the exact rule on a pixel: alpha channel first, each colour channel with the source alpha that applies to it *)
 Blend(op, s, d) ==
     <<PD(op, s[1], s[1], d[1], d[1]), PD(op, s[2], s[1], d[2], d[1]),
       PD(op, s[3], s[1], d[3], d[1]), PD(op, s[4], s[1], d[4], d[1])>>
 
-Shift(L, dx, dy) == [i \in DOMAIN L |-> <<L[i][1] + dx, L[i][2] + dy, L[i][3] + dx, L[i][4] + dy>>]
+(* source IN mask.  Unified alpha: every channel times the mask's alpha.  Component alpha: channel c times the   *)
+(* mask's channel c, and the source alpha that applies to channel c is s.a times the mask's channel c.          *)
+BlendMasked(op, s, m, ca, d) ==
+    IF ~ca
+    THEN Blend(op, <<MulUn8(s[1], m[1]), MulUn8(s[2], m[1]), MulUn8(s[3], m[1]), MulUn8(s[4], m[1])>>, d)
+    ELSE <<PD(op, MulUn8(s[1], m[1]), MulUn8(s[1], m[1]), d[1], d[1]),
+           PD(op, MulUn8(s[2], m[2]), MulUn8(s[1], m[2]), d[2], d[1]),
+           PD(op, MulUn8(s[3], m[3]), MulUn8(s[1], m[3]), d[3], d[1]),
+           PD(op, MulUn8(s[4], m[4]), MulUn8(s[1], m[4]), d[4], d[1])>>
 
-CompositeRegionOf(s, d, sx, sy, dx, dy, w, h) ==
+(* what a destination stores for a computed <<a, r, g, b>> (channels it does not have are dropped) *)
+StoreAs(fmt, v, old) ==
+    CASE fmt = "a8r8g8b8" -> v
+      [] fmt = "x8r8g8b8" -> <<old[1], v[2], v[3], v[4]>>
+      [] fmt = "a8"       -> <<v[1], 0, 0, 0>>
+
+Shift(L, dx, dy) ==
+    IF L = <<>> THEN <<>> ELSE [i \in DOMAIN L |-> <<L[i][1] + dx, L[i][2] + dy, L[i][3] + dx, L[i][4] + dy>>]
+
+ClipsAsSource(im) == im.kind # "none" /\ im.clip.on /\ im.srcclip
+
+(* intersection of two rectangle lists as point sets, in canonical form (empty rectangles are dropped) *)
+Inter(A, B) ==
+    LET a == SelectSeq(A, Good)   b == SelectSeq(B, Good) IN
+    IF a = <<>> \/ b = <<>> THEN <<>> ELSE BandOp("intersect", a, b)
+
+CompositeRegionOf(s, m, d, sx, sy, mx, my, dx, dy, w, h) ==
     LET r0 == <<<<dx, dy, dx + w, dy + h>>>>
-        r1 == BandOp("intersect", r0, <<<<0, 0, d.w, d.h>>>>)
-        r2 == IF ~d.clip.on THEN r1 ELSE BandOp("intersect", r1, d.clip.r)
-        r3 == IF ~s.clip.on \/ ~s.srcclip THEN r2 ELSE BandOp("intersect", r2, Shift(s.clip.r, dx - sx, dy - sy))
-    IN  r3
+        r1 == Inter(r0, <<<<0, 0, d.w, d.h>>>>)
+        r2 == IF ~d.clip.on THEN r1 ELSE Inter(r1, d.clip.r)
+        r3 == IF ~ClipsAsSource(s) THEN r2 ELSE Inter(r2, Shift(s.clip.r, dx - sx, dy - sy))
+        r4 == IF ~ClipsAsSource(m) THEN r3 ELSE Inter(r3, Shift(m.clip.r, dx - mx, dy - my))
+    IN  r4
 
-CompositeResult(op, s, d, sx, sy, dx, dy, w, h) ==
-    LET R == CompositeRegionOf(s, d, sx, sy, dx, dy, w, h) IN
+CompositeOver(R, op, s, m, d, sx, sy, mx, my, dx, dy) ==
     [i \in 1..(d.w * d.h) |->
         LET x == (i - 1) % d.w   y == (i - 1) \div d.w IN
-        IF PointIn(R, x, y) THEN Blend(op, PixelAt(s, x + sx - dx, y + sy - dy), d.px[i]) ELSE d.px[i]]
+        IF ~PointIn(R, x, y) THEN d.px[i]
+        ELSE LET sp == PixelAt(s, x + sx - dx, y + sy - dy)
+                 dp == View(d.fmt, d.px[i])
+                 v  == IF m.kind = "none" THEN Blend(op, sp, dp)
+                       ELSE BlendMasked(op, sp, PixelAt(m, x + mx - dx, y + my - dy), m.ca, dp)
+             IN  StoreAs(d.fmt, v, d.px[i])]
 
-(* actions *)
-SetClip(i, v) == img' = [img EXCEPT ![i].clip = ClipOf(reg[v].r)] /\ UNCHANGED reg
-ClearClip(i)  == img' = [img EXCEPT ![i].clip = NoClip] /\ UNCHANGED reg
-SetSourceClipping(i, on) == img' = [img EXCEPT ![i].srcclip = on] /\ UNCHANGED reg
-Composite(op, si, di, sx, sy, dx, dy, w, h) ==
-    /\ img' = [img EXCEPT ![di].px = CompositeResult(op, img[si], img[di], sx, sy, dx, dy, w, h)]
+CompositeResult(op, s, m, d, sx, sy, mx, my, dx, dy, w, h) ==
+    CompositeOver(CompositeRegionOf(s, m, d, sx, sy, mx, my, dx, dy, w, h), op, s, m, d, sx, sy, mx, my, dx, dy)
+
+(* pixman_image_fill_boxes, stated on its own: the boxes are drawn one after the other ("compositing a solid     *)
+(* image of that colour over each box within the destination clip"): a pixel covered by two boxes receives the   *)
+(* operator twice.  FillUnion is the other reading - the union of the boxes, each pixel once - which is what the *)
+(* direct-fill shortcut does; model checking shows the two coincide exactly for the operators the shortcut is     *)
+(* taken for (SRC, CLEAR, and OVER with an opaque colour), and differ otherwise (mc/PixmanSysMC).                 *)
+FillRegionOf(d, boxes) ==
+    LET r1 == Inter(boxes, <<<<0, 0, d.w, d.h>>>>)          \* Inter canonicalises: the union of the boxes
+    IN  IF ~d.clip.on THEN r1 ELSE Inter(r1, d.clip.r)
+FillUnion(op, col, d, boxes) ==
+    LET R == FillRegionOf(d, boxes)   c == Solid(col).px[1] IN
+    [i \in 1..(d.w * d.h) |->
+        LET x == (i - 1) % d.w   y == (i - 1) \div d.w IN
+        IF PointIn(R, x, y) THEN StoreAs(d.fmt, Blend(op, c, View(d.fmt, d.px[i])), d.px[i]) ELSE d.px[i]]
+RECURSIVE FillResult(_, _, _, _)
+FillResult(op, col, d, boxes) ==
+    IF boxes = <<>> THEN d.px
+    ELSE FillResult(op, col, [d EXCEPT !.px = FillUnion(op, col, d, <<Head(boxes)>>)], Tail(boxes))
+
+Live(i) == i \in DOMAIN img /\ img[i].refs > 0
+
+(* actions (one per API call) *)
+CreateImage(i, im) == i \notin DOMAIN img /\ img' = (i :> im) @@ img /\ UNCHANGED reg
+SetClip(i, v) == Live(i) /\ img' = [img EXCEPT ![i].clip = ClipOf(reg[v].r)] /\ UNCHANGED reg
+ClearClip(i)  == Live(i) /\ img' = [img EXCEPT ![i].clip = NoClip] /\ UNCHANGED reg
+SetSourceClipping(i, on) == Live(i) /\ img' = [img EXCEPT ![i].srcclip = on] /\ UNCHANGED reg
+SetRepeat(i, r) == Live(i) /\ img' = [img EXCEPT ![i].rep = r] /\ UNCHANGED reg
+SetTranslation(i, tx, ty) == Live(i) /\ img' = [img EXCEPT ![i].tx = tx, ![i].ty = ty] /\ UNCHANGED reg
+SetComponentAlpha(i, on) == Live(i) /\ img' = [img EXCEPT ![i].ca = on] /\ UNCHANGED reg
+Ref(i) == Live(i) /\ img' = [img EXCEPT ![i].refs = @ + 1] /\ UNCHANGED reg
+(* pixman_image_unref returns TRUE exactly when the image ceased to exist *)
+Unref(i, gone) ==
+    /\ Live(i) /\ gone = (img[i].refs = 1)
+    /\ img' = IF gone THEN [j \in DOMAIN img \ {i} |-> img[j]] ELSE [img EXCEPT ![i].refs = @ - 1]
+    /\ UNCHANGED reg
+MaskOf(mi) == IF mi = 0 THEN NoImage ELSE img[mi]
+Composite(op, si, mi, di, sx, sy, mx, my, dx, dy, w, h) ==
+    /\ Live(si) /\ Live(di) /\ (mi = 0 \/ Live(mi))
+    /\ img' = [img EXCEPT ![di].px = CompositeResult(op, img[si], MaskOf(mi), img[di], sx, sy, mx, my, dx, dy, w, h)]
+    /\ UNCHANGED reg
+FillBoxes(op, col, di, boxes) ==
+    /\ Live(di)
+    /\ img' = [img EXCEPT ![di].px = FillResult(op, col, img[di], boxes)]
     /\ UNCHANGED reg
 =============================================================================
